@@ -3,13 +3,16 @@ Lemmas for C14, part 6: the history machine on single-operation entries, the sta
 (`Inv`: the stacks lead through the recorded states), runs of edits and depth-k undo/redo.
 -/
 import YorkieModel.Lemmas.UndoGood
+import YorkieModel.Lemmas.UndoCompat
 namespace Yorkie.Undo
 open Yorkie Yorkie.Crdt
 
 /-! ### the history machine on single-operation entries -/
 
-theorem addTwins_nil (tw : Ticket → Bool) : addTwins tw [] = tw := by
-  funext t; simp [addTwins]
+/-- what the skip rule sees of the twin marks in the repaired tree: nothing -/
+@[reducible] def noTw : Ticket → Bool := fun _ => false
+
+theorem addTwins_nil (tw : Ticket → Bool) : addTwins tw [] = tw := rfl
 
 /-- the ticket the next local change / undo / redo issues first -/
 def Hist.next (h : Hist) : Ticket := ⟨h.lamport + 1, 1, h.actor⟩
@@ -24,30 +27,31 @@ theorem reconcileSets_plain (h : Hist) {op : UOp} (hp : op.plain = true) : recon
   cases op <;> simp [UOp.plain] at hp <;> rfl
 
 theorem doChange_one {h : Hist} {op : UOp} {d' : Doc} {r : UOp} (hp : op.plain = true)
-    (he : uexecute h.doc h.tw .loc op = .ok (d', some r)) :
+    (he : uexecute h.doc noTw .loc op = .ok (d', some r)) :
     doChange h [op] = { h with doc := d', undo := push h.undo [r], redo := [], lamport := h.lamport + 1 } := by
-  simp only [doChange, List.isEmpty_cons, Bool.false_eq_true, if_false, runOps, he, twinIds_plain hp,
-    addTwins_nil, List.nil_append, Option.toList_some, reconcileSets_plain h hp, List.reverse_cons,
+  simp only [doChange_eq, List.isEmpty_cons, Bool.false_eq_true, if_false, runOps_cons, runOps_nil, he,
+    List.nil_append, Option.toList_some, reconcileSets_plain h hp, List.reverse_cons,
     List.reverse_nil]
 
 theorem reticket_one (h : Hist) {r : UOp} (hp : r.plain = true) (i : Nat) :
     reticket h i [r] = (h, [r.withTs ⟨h.lamport + 1, i, h.actor⟩]) := by
+  rw [reticket_single]
   cases r <;> simp [UOp.plain] at hp <;> rfl
 
 theorem undo_one {h : Hist} {r q : UOp} {rest : List (List UOp)} {d' : Doc} (hu : h.undo = [r] :: rest)
-    (hp : r.plain = true) (he : uexecute h.doc h.tw .undoRedo (r.withTs h.next) = .ok (d', some q)) :
+    (hp : r.plain = true) (he : uexecute h.doc noTw .undoRedo (r.withTs h.next) = .ok (d', some q)) :
     undo h = { h with undo := rest, redo := push h.redo [q], doc := d', lamport := h.lamport + 1 } := by
   unfold Hist.next at he
-  simp only [undo, undoRedo, hu, if_true, List.isEmpty_cons, Bool.false_eq_true, if_false,
-    reticket_one _ hp, runOps, he, twinIds_plain (plain_withTs _ hp), addTwins_nil, List.nil_append,
+  simp only [undo, undoRedo_eq, hu, if_true, List.isEmpty_cons, Bool.false_eq_true, if_false,
+    reticket_one _ hp, runOps_cons, runOps_nil, he, List.nil_append,
     Option.toList_some, List.reverse_cons, List.reverse_nil]
 
 theorem redo_one {h : Hist} {r q : UOp} {rest : List (List UOp)} {d' : Doc} (hu : h.redo = [r] :: rest)
-    (hp : r.plain = true) (he : uexecute h.doc h.tw .undoRedo (r.withTs h.next) = .ok (d', some q)) :
+    (hp : r.plain = true) (he : uexecute h.doc noTw .undoRedo (r.withTs h.next) = .ok (d', some q)) :
     redo h = { h with redo := rest, undo := push h.undo [q], doc := d', lamport := h.lamport + 1 } := by
   unfold Hist.next at he
-  simp only [redo, undoRedo, hu, Bool.false_eq_true, if_false, List.isEmpty_cons,
-    reticket_one _ hp, runOps, he, twinIds_plain (plain_withTs _ hp), addTwins_nil, List.nil_append,
+  simp only [redo, undoRedo_eq, hu, Bool.false_eq_true, if_false, List.isEmpty_cons,
+    reticket_one _ hp, runOps_cons, runOps_nil, he, List.nil_append,
     Option.toList_some, List.reverse_cons, List.reverse_nil]
 
 
@@ -110,15 +114,15 @@ structure Inv (H : Home) (g : Hist) (past : List Doc) (cur : Doc) (future : List
   wfc : WF H cur
   eskel : ∀ t, skel g.doc t = skel cur t
   enode : absNode g.doc = absNode cur
-  undoRel : StackRel H g.tw g.lamport g.undo cur past
-  redoRel : StackRel H g.tw g.lamport g.redo cur future
+  undoRel : StackRel H noTw g.lamport g.undo cur past
+  redoRel : StackRel H noTw g.lamport g.redo cur future
 
 theorem Inv.eqv {H : Home} {g : Hist} {past : List Doc} {cur : Doc} {future : List Doc}
     (i : Inv H g past cur future) : Eqv g.doc cur := ⟨i.eskel, fun t => congrFun i.enode t⟩
 
 /-- a local change with one operation of the alphabet -/
 theorem inv_do {H : Home} {g : Hist} {past : List Doc} {cur : Doc} {future : List Doc} {op : UOp}
-    (i : Inv H g past cur future) (hg : GoodOp H g.tw g.doc op) (hid : op.idBound (g.lamport + 1))
+    (i : Inv H g past cur future) (hg : GoodOp H noTw g.doc op) (hid : op.idBound (g.lamport + 1))
     (hp : op.plain = true) :
     ∃ r, (doChange g [op.withTs g.next]).undo = push g.undo [r] ∧
       (doChange g [op.withTs g.next]).redo = [] ∧
@@ -138,12 +142,12 @@ theorem inv_do {H : Home} {g : Hist} {past : List Doc} {cur : Doc} {future : Lis
 
 /-- executing a related entry on the actual state -/
 theorem entry_exec {H : Home} {g : Hist} {past : List Doc} {Y : Doc} {future : List Doc} {r : UOp} {X : Doc}
-    (i : Inv H g past Y future) (en : Entry H g.tw g.lamport r X Y) :
-    ∃ d' q, uexecute g.doc g.tw .undoRedo (r.withTs g.next) = .ok (d', some q) ∧
+    (i : Inv H g past Y future) (en : Entry H noTw g.lamport r X Y) :
+    ∃ d' q, uexecute g.doc noTw .undoRedo (r.withTs g.next) = .ok (d', some q) ∧
       WF H d' ∧ Bounded d' (g.lamport + 1) ∧ (∀ t, skel d' t = skel X t) ∧ absNode d' = absNode X ∧
-      Entry H g.tw (g.lamport + 1) q Y X := by
+      Entry H noTw (g.lamport + 1) q Y X := by
   have hs : ∀ t, skel Y t = skel g.doc t := fun t => (i.eskel t).symm
-  have hg : GoodOp H g.tw g.doc r := GoodOp_transfer i.wfc i.wf hs i.enode.symm en.good
+  have hg : GoodOp H noTw g.doc r := GoodOp_transfer i.wfc i.wf hs i.enode.symm en.good
   obtain ⟨d', q, he, res⟩ := step_good (src := .undoRedo) (ts := g.next) i.wf i.bd
     (by simp only [Hist.next]; omega) (UOp.idBound_mono en.idb (by simp only [Hist.next]; omega)) hg rfl
   have hlam : g.next.lamport = g.lamport + 1 := rfl
@@ -163,7 +167,7 @@ theorem inv_undo {H : Home} {g : Hist} {X Y : Doc} {more future : List Doc} {e :
   obtain ⟨d', q, he, hwf, hbd, hsk, hnode, enq⟩ := entry_exec i en
   rw [undo_one hu en.plain he]
   refine ⟨q, rfl, rfl, ⟨hwf, hbd, en.wfX, hsk, hnode, hrest.mono (by simp only []; omega), ?_⟩⟩
-  show StackRel H g.tw (g.lamport + 1) (push g.redo [q]) X (Y :: future)
+  show StackRel H noTw (g.lamport + 1) (push g.redo [q]) X (Y :: future)
   rw [push_eq]
   exact ⟨⟨q, rfl, enq⟩, (i.redoRel.pushTail).mono (by omega)⟩
 
@@ -177,7 +181,7 @@ theorem inv_redo {H : Home} {g : Hist} {X Y : Doc} {past more : List Doc} {e : L
   obtain ⟨d', q, he, hwf, hbd, hsk, hnode, enq⟩ := entry_exec i' en
   rw [redo_one hu en.plain he]
   refine ⟨q, rfl, rfl, ⟨hwf, hbd, en.wfX, hsk, hnode, ?_, hrest.mono (by simp only []; omega)⟩⟩
-  show StackRel H g.tw (g.lamport + 1) (push g.undo [q]) Y (X :: past)
+  show StackRel H noTw (g.lamport + 1) (push g.undo [q]) Y (X :: past)
   rw [push_eq]
   exact ⟨⟨q, rfl, enq⟩, (i.undoRel.pushTail).mono (by omega)⟩
 
@@ -204,7 +208,7 @@ def runEdits : Hist → List Edit → Hist
 /-- every edit of the run is executable when its turn comes -/
 def EditsOk (H : Home) : Hist → List Edit → Prop
   | _, [] => True
-  | h, e :: es => GoodOp H h.tw h.doc (e.op h.next) ∧ EditsOk H (doEdit h e) es
+  | h, e :: es => GoodOp H noTw h.doc (e.op h.next) ∧ EditsOk H (doEdit h e) es
 
 /-- the recorded documents of a run, oldest first -/
 def states : Hist → List Edit → List Doc
@@ -252,7 +256,7 @@ theorem push_length_ge (s : List (List UOp)) (e : List UOp) (n : Nat) (h : min n
   · simp only [List.length_cons]; omega
 
 theorem inv_doEdit {H : Home} {g : Hist} {past : List Doc} {cur : Doc} {future : List Doc} {e : Edit}
-    (i : Inv H g past cur future) (hg : GoodOp H g.tw g.doc (e.op g.next)) :
+    (i : Inv H g past cur future) (hg : GoodOp H noTw g.doc (e.op g.next)) :
     ∃ r, (doEdit g e).undo = push g.undo [r] ∧ (doEdit g e).redo = [] ∧
       (∀ t, skel (doEdit g e).doc t = skel g.doc t) ∧
       Inv H (doEdit g e) (cur :: past) (doEdit g e).doc [] := by
@@ -268,7 +272,7 @@ theorem inv_doEdit {H : Home} {g : Hist} {past : List Doc} {cur : Doc} {future :
   exact res.skel
 
 theorem doEdit_tw_lamport {H : Home} {g : Hist} {past : List Doc} {cur : Doc} {future : List Doc} {e : Edit}
-    (i : Inv H g past cur future) (hg : GoodOp H g.tw g.doc (e.op g.next)) :
+    (i : Inv H g past cur future) (hg : GoodOp H noTw g.doc (e.op g.next)) :
     (doEdit g e).tw = g.tw ∧ (doEdit g e).lamport = g.lamport + 1 ∧ (doEdit g e).actor = g.actor := by
   obtain ⟨d', r', he, res⟩ := step_good (src := .loc) (ts := g.next) i.wf i.bd (by simp only [Hist.next]; omega)
     (Edit.op_idBound e g.next) hg rfl
